@@ -13,7 +13,7 @@ flag in {"0", "1", "INHERITED"}.  Rule: dict(name, atom in {"true","false","INHE
 emit in {"Span","Expression","Both"}, boxed bool, body).  Grammar: dict(gid, rules, skipped).
 """
 import os
-from corpus import hexs, HERE, fill
+from corpus import hexs, HERE, fill, PROFILE
 
 
 def rust_char(c):
@@ -210,7 +210,7 @@ pest = "=2.7.14"
         old = open(path).read() if os.path.exists(path) else None
         if old != new:
             open(path, "w").write(new)
-    open(os.path.join(outdir, "Cargo.toml"), "w").write("[workspace]\nresolver = \"2\"\nmembers = [" + ", ".join(f'"{m}"' for m in members) + "]\n")
+    open(os.path.join(outdir, "Cargo.toml"), "w").write("[workspace]\nresolver = \"2\"\nmembers = [" + ", ".join(f'"{m}"' for m in members) + "]\n" + PROFILE)
     import subprocess
     subprocess.check_call(["cp", "/repo/Cargo.lock", os.path.join(outdir, "Cargo.lock")])
     return where
